@@ -22,6 +22,19 @@ class _DispatcherMiddleware:
                 if scope["path"].startswith(path):
                     scope["path"] = scope["path"][len(path) :] or "/"
                     return await app(scope, receive, send)
+            if scope["type"] == "websocket":
+                if "websocket.http.response" in scope.get("extensions", {}):
+                    await send(
+                        {
+                            "type": "websocket.http.response.start",
+                            "status": 404,
+                            "headers": [(b"content-length", b"0")],
+                        }
+                    )
+                    await send({"type": "websocket.http.response.body"})
+                else:
+                    await send({"type": "websocket.close"})
+                return
             await send(
                 {
                     "type": "http.response.start",
